@@ -131,6 +131,12 @@ class FindInConstants(FindByGlob):
             if not root:
                 continue
 
+            # a parent that is not searched must exist in the parent source
+            if self.parent_source and root != root.parent and "*" not in str(root.parent):
+                if not self.parent_source.exists(root.parent):
+                    debug(f'Parent of "{root}" does not exist in the parent source, skipped.')
+                    continue
+
             # nothing to search, we yield
             if "*" not in str(root):
 
